@@ -1,5 +1,6 @@
 # -*- coding: utf-8 -*-
 
+import copy
 import json
 from typing import (
     Any,
@@ -106,6 +107,12 @@ class ResolutionContext:
         """
         Register an error during the current execution.
         """
+        # The same exception object can be raised for several fields: every
+        # registered error needs its own path and nodes.
+        if any(err is registered for registered in self._errors):
+            err = copy.copy(err)
+            err.nodes = []
+
         if node:
             if not err.nodes:
                 err.nodes = [node]
